@@ -7,7 +7,7 @@ RULE = ("Hypothesis draws RunSpecs (optimizer x task of every encoding x config 
         "mode); each case is one complete optimize(); every agent of every generation and best_solution is "
         "tested with a membership predicate written from the variable declarations. Non-trivial = completed "
         "run in which a reported coordinate sits exactly on a bound or the task has a non-continuous variable; "
-        "distinct = SHA-256 of the spec.")
+        "distinct = SHA-256 of the spec. About 15 % of the cases make the judged run on an optimizer instance that has already been used for an optimize() call on another task (reused instance).")
 ASSUMPTIONS = ["membership predicate harness/oracles.py:member is the trusted statement of the search space",
                "runs that raise are judged by C06, here they are only counted",
                "pool modes sampled with a small weight (C11 explores schedules)"]
